@@ -650,7 +650,8 @@ class Normaliser:
                 if no_cont is not None:
                     st.body = no_cont
                 for n in ast.walk(ast.Module(body=st.body, type_ignores=[])):
-                    if isinstance(n, (ast.Break, ast.Continue, ast.Return, ast.Yield, ast.YieldFrom)):
+                    # a return leaves the function whether the loop is written out or not
+                    if isinstance(n, (ast.Break, ast.Continue, ast.Yield, ast.YieldFrom)):
                         bad = True
                     if isinstance(n, ast.Name) and isinstance(n.ctx, (ast.Store, ast.Del)) and n.id in targets:
                         bad = True
@@ -2286,8 +2287,27 @@ class Normaliser:
         if r is None:
             return None
         callee, recv, owner_rel, nested = r
-        if callee.name in stack or not self._acceptable(callee):
+        if callee.name in stack:
             return None
+        if not self._acceptable(callee):
+            # the helper in its own normal form (a search loop over a constant table written out)
+            busy = getattr(self, '_expanding', None)
+            if busy is None:
+                busy = self._expanding = set()
+            if id(callee) in busy or getattr(callee, '_parent', None) is None:
+                return None
+            busy.add(id(callee))
+            saved = getattr(self, '_cur_fn', None)
+            try:
+                alt = self.expand(callee)
+            except RecursionError:
+                alt = callee
+            finally:
+                busy.discard(id(callee))
+                self._cur_fn = saved
+            if alt is callee or not self._acceptable(alt):
+                return None
+            callee = alt
         return callee, recv, owner_rel
 
     def _inline_stmt(self, st, fn, rel, mod, cls, stack, depth, caller_names):
